@@ -109,7 +109,7 @@ func (st *State) enabled(g *G) bool {
 }
 
 func (st *State) timerReady(c *ChanObj) bool {
-	return c.Timer && st.timersOn && !c.Fired
+	return c.Timer && (st.timersOn || c.Ready) && !c.Fired
 }
 
 func (st *State) recvReady(c *ChanObj, self *G) bool {
